@@ -81,6 +81,18 @@ def prepare_extensions():
     return final, assumptions
 
 
+def _isolated_shard(t, pf, of):
+    import pickle
+    from harness import core
+    try:
+        out = ('ok', core.run_shard(*t, progress_file=pf))
+    except BaseException as e:      # noqa
+        out = ('err', '%s: %s' % (type(e).__name__, e))
+    with open(of + '.tmp', 'wb') as f:
+        pickle.dump(out, f)
+    os.replace(of + '.tmp', of)
+
+
 def main():
     ap = argparse.ArgumentParser()
     ap.add_argument('prop')
@@ -171,30 +183,61 @@ def main():
         progdir = '/var/tmp/dadi-verif-prog-%d' % os.getpid()
         os.makedirs(progdir, exist_ok=True)
     try:
-        with cf.ProcessPoolExecutor(max_workers=max(1, min(args.jobs, len(tasks))),
-                                    mp_context=mp.get_context('fork')) as ex:
-            futs = {}
-            for i, t in enumerate(tasks):
-                pf = os.path.join(progdir, '%d.json' % i) if progdir else None
-                futs[ex.submit(core.run_shard, *t, progress_file=pf)] = (t, pf)
-            for fu in cf.as_completed(futs):
-                t, pf = futs[fu]
-                try:
-                    results.append(fu.result())
-                except Exception as e:
+        if progdir:
+            # one process per shard (not a pool): a worker killed by the code under test (segfault in a compiled kernel) loses only
+            # its own shard, and the case it was running is read back from its progress file and reported as a violation
+            import pickle
+            import time as _time
+            ctx = mp.get_context('fork')
+            pending = list(enumerate(tasks))
+            running = {}
+            while pending or running:
+                while pending and len(running) < max(1, args.jobs):
+                    i, t = pending.pop(0)
+                    pf = os.path.join(progdir, '%d.json' % i)
+                    of = os.path.join(progdir, '%d.out' % i)
+                    pr = ctx.Process(target=_isolated_shard, args=(t, pf, of))
+                    pr.start()
+                    running[i] = (pr, t, pf, of)
+                for i in list(running):
+                    pr, t, pf, of = running[i]
+                    if pr.is_alive():
+                        continue
+                    pr.join()
+                    del running[i]
+                    if os.path.exists(of):
+                        with open(of, 'rb') as f:
+                            kind, val = pickle.load(f)
+                        if kind == 'ok':
+                            results.append(val)
+                        else:
+                            errors.append('%s shard %d: %s' % (t[1], t[3], val))
+                        continue
                     case = None
-                    if pf and os.path.exists(pf):
+                    if os.path.exists(pf):
                         try:
                             with open(pf) as f:
                                 case = json.load(f)
                         except Exception:
                             case = None
                     if case is not None:
-                        # a worker died (e.g. segfault inside a compiled kernel) while running this case
                         results.append(dict(rel=t[1], shard=t[3], rec=core.Recorder(prop, t[1]).dump(),
-                                            failure=dict(case=case, msg='worker process died while running this case: %s' % e,
+                                            failure=dict(case=case, msg='worker process died (exit code %s) while running this case' % pr.exitcode,
                                                          sig=dict(crash=True)), error=None, wall=0))
                     else:
+                        errors.append('%s shard %d: worker exited with code %s before running a case' % (t[1], t[3], pr.exitcode))
+                _time.sleep(0.02)
+        else:
+            with cf.ProcessPoolExecutor(max_workers=max(1, min(args.jobs, len(tasks))),
+                                        mp_context=mp.get_context('fork')) as ex:
+                futs = {}
+                for i, t in enumerate(tasks):
+                    futs[ex.submit(core.run_shard, *t, progress_file=None)] = t
+                for fu in cf.as_completed(futs):
+                    t = futs[fu]
+                    try:
+                        results.append(fu.result())
+                    except Exception as e:
                         errors.append('%s shard %d: %s: %s' % (t[1], t[3], type(e).__name__, e))
     finally:
         if progdir:
